@@ -105,7 +105,7 @@ def callgraph_of(fb):
     return _CG[id(fb)]
 
 
-def comparator_keys(rep, fb):
+def comparator_keys(rep, fb, rule='R02.9'):
     import re
     cls = 'uscxml::LargeMicroStep'
     rec = fb.records.get(cls)
@@ -145,12 +145,12 @@ def comparator_keys(rep, fb):
         if not keys:
             raise AnalysisBroken('%s::operator(): no key comparison found' % cmp_name)
         unique = [k for k in keys if k not in shared]
-        rep.check(bool(unique), 'R02.9', 'LargeMicroStep|%s' % cmp_name, op.where(),
+        rep.check(bool(unique), rule, 'LargeMicroStep|%s' % cmp_name, op.where(),
                   '%s (used by %s) orders by %s; %s' % (cmp_name, ', '.join(where[:4]), [k[1] for k in keys],
                                                       'key(s) unique per element: %s' % [k[1] for k in unique] if unique else
                                                       'every key is shared: %s is assigned the same constant for several elements at %s -- the set keeps only one of them' % (
                                                           keys[0][1], ', '.join(locstr(x) for x in shared[keys[0]][:2]))))
-    rep.minimum('R02.9', len(used), 3, 'comparators of ordered state/transition sets')
+    rep.minimum(rule, len(used), 3, 'comparators of ordered state/transition sets')
 
 
 def run(rep, tier):
